@@ -244,3 +244,9 @@ Fixpoint sfields (fuel : nat) (frags : list (string * list sel)) (s : sel) {stru
 (** Occurrence by occurrence: the same field, its arguments converted under the variable map [vars']. *)
 Definition occ_rel (vars' : list (string * jv)) (sf : string * list (string * lit)) (cf : string * jv) : Prop :=
   fst sf = fst cf /\ args_to_json vars' (snd sf) = Ok (snd cf).
+
+(** What one occurrence of the field yields on its own: its arguments converted under [vars'], then parsed. *)
+Definition own_outcome (b64_dec : string -> option (list Z)) (time_dec : string -> option tval)
+           (text_dec : string -> option string) (t : ty) (vars' : list (string * jv))
+           (sf : string * list (string * lit)) (r : result gv) : Prop :=
+  exists j, args_to_json vars' (snd sf) = Ok j /\ parse b64_dec time_dec text_dec t j = r.
